@@ -13,6 +13,7 @@ import (
 	"verif/engine/vctx"
 	"verif/engine/vpipe"
 	"verif/engine/vs"
+	"verif/engine/vtime"
 	"verif/fw"
 	"verif/refws/deflate"
 	"verif/refws/frame"
@@ -512,6 +513,91 @@ func c10ConcSetup(prm c10ConcParams) func(c *fw.Ctx, name string) explore.Setup 
 	}
 }
 
+// Three calls: a Ping whose frame is stuck in the transport (it holds the frame
+// lock only), a Write whose context is cancelled while it waits for that frame
+// lock (it holds the message lock by then), and a Write with a healthy context.
+// The peer opens its window at 1 s. "A context bounds only its own call": the
+// healthy Write has to return, with nil, or with an error if the connection
+// was closed because of the cancellation.
+func c10ThirdSetup(k connCfg) func(c *fw.Ctx, name string) explore.Setup {
+	return func(c *fw.Ctx, name string) explore.Setup {
+		return func(w *vs.World) func(bool) {
+			p := vpipe.New()
+			p.Window = 1
+			var errB, errC error
+			var retB, retC, startedC bool
+			w.GoHarness("main", true, func() {
+				conn := mkConn(p, k)
+				bg := vctx.Background()
+				w.GoHarness("bgreader", false, func() {
+					for {
+						_, r, err := conn.Reader(bg)
+						if err != nil {
+							return
+						}
+						if _, err := io.Copy(io.Discard, r); err != nil {
+							return
+						}
+					}
+				})
+				w.GoHarness("peer", false, func() {
+					vtime.Sleep(time.Second)
+					p.SetWindow(0)
+					// answer the ping once it is on the wire
+					var pl []byte
+					if p.WaitOut("ping", func(out []byte) bool {
+						for _, f := range connFrames(out) {
+							if f.Opcode == frame.OpPing {
+								pl = f.Payload
+								return true
+							}
+						}
+						return false
+					}) {
+						p.Send(peerFrame(k, frame.Frame{Fin: true, Opcode: frame.OpPong, Payload: pl}))
+					}
+				})
+				w.GoHarness("pinger", false, func() { conn.Ping(bg) })
+				ctxB, cancelB := vctx.WithCancel(bg)
+				w.GoHarness("writerB", true, func() {
+					p.WaitOut("ping-begun", func(out []byte) bool { return len(out) > 0 })
+					errB = conn.Write(ctxB, websocket.MessageText, fill(0xB1, 20))
+					retB = true
+				})
+				w.GoHarness("canceller", true, func() {
+					vtime.Sleep(500 * time.Millisecond)
+					cancelB()
+				})
+				w.GoHarness("writerC", true, func() {
+					vtime.Sleep(700 * time.Millisecond)
+					startedC = true
+					errC = conn.Write(bg, websocket.MessageText, fill(0xC1, 20))
+					retC = true
+				})
+				vs.Quiesce()
+			})
+			return func(complete bool) {
+				if !complete {
+					return
+				}
+				role := k.String()
+				if w.Panic != "" {
+					violate(c, w, name, "C10/panic/"+role, w.Panic)
+					return
+				}
+				c.OutcomeStr(fmt.Sprintf("%s|B=%v/%v|C=%v/%v|closed=%v", name, retB, errB != nil, retC, errC != nil, p.Closed))
+				if startedC && !retC {
+					violate(c, w, name, "C10/foreign-cancellation-blocks-call/Write/"+role, fmt.Sprintf("a Write whose context was cancelled while it waited for the frame lock returned %q; a later Write with a healthy context never returns although the transport is writable again (connection closed=%v): stuck %v", errStr(errB), p.Closed, stuckTasks(w)))
+					return
+				}
+				if retC && errC != nil && !p.Closed {
+					violate(c, w, name, "C10/foreign-cancellation-fails-call/Write/"+role, fmt.Sprintf("the healthy Write failed with %q although the connection is open", errC))
+				}
+			}
+		}
+	}
+}
+
 func c10Api(op string) string {
 	switch op[0] {
 	case 'R':
@@ -599,6 +685,9 @@ func c10Scenarios(tier string) []scenario {
 				}
 			}
 		}
+	}
+	for _, k := range []connCfg{{Client: false}, {Client: true}, {Client: false, Flate: true, Thr: 1}, {Client: true, Flate: true, Thr: 1}} {
+		scs = append(scs, scenario{Name: "cc3/PB+W+W/" + k.String(), Cfg: explore.Config{P: cfg.P, T: 0, E: 0, Horizon: 120e9}, Setup: c10ThirdSetup(k)})
 	}
 	return scs
 }
